@@ -864,8 +864,8 @@ Proof. intros Hc. apply diff_complete. intros u l Hu H. exact (depends_code_dep 
 (* ---- witnesses of the two defect classes ---- *)
 
 (* //defs:defs (rules.build_defs), //a:lib in a package that subincludes //defs:defs *)
-Definition w_defs : target := mkT 0 (s "defs") false None [s "rules.build_defs"] [] [] [] [] [] true 1 1.
-Definition w_lib : target := mkT 1 (s "a") false None [s "lib.go"] [] [] [] [] [] true 2 1.
+Definition w_defs : target := mkT 0%N (s "defs") false None [s "rules.build_defs"] [] [] [] [] [] true 1%N 1%N.
+Definition w_lib : target := mkT 1%N (s "a") false None [s "lib.go"] [] [] [] [] [] true 2%N 1%N.
 Definition w_incl : graph := mkG [w_defs; w_lib] [s "a"; s "defs"] [(s "a", 0%N)].
 
 Lemma w_incl_direct : direct w_incl [s "defs/rules.build_defs"] w_defs.
@@ -890,9 +890,9 @@ Proof.
 Qed.
 
 (* //third_party:sr defines the subrepo sr, ///sr//x:lib lives in it, //a:app depends on ///sr//x:lib *)
-Definition w_sr : target := mkT 2 (s "third_party") false None [s "sr.patch"] [] [] [] [] [] true 1 1.
-Definition w_srlib : target := mkT 0 (s "x") true (Some 2%N) [] [] [] [] [] [] true 2 1.
-Definition w_app : target := mkT 1 (s "a") false None [] [0%N] [] [] [] [] true 3 1.
+Definition w_sr : target := mkT 2%N (s "third_party") false None [s "sr.patch"] [] [] [] [] [] true 1%N 1%N.
+Definition w_srlib : target := mkT 0%N (s "x") true (Some 2%N) [] [] [] [] [] [] true 2%N 1%N.
+Definition w_app : target := mkT 1%N (s "a") false None [] [0%N] [] [] [] [] true 3%N 1%N.
 Definition w_subrepo : graph := mkG [w_srlib; w_app; w_sr] [s "a"; s "third_party"] [].
 
 Lemma w_subrepo_direct : direct w_subrepo [s "third_party/sr.patch"] w_sr.
@@ -903,7 +903,7 @@ Proof.
     split; [discriminate|]. split; [apply Forall_wf_segb; reflexivity|]. split; reflexivity.
 Qed.
 
-Lemma w_subrepo_affected sub base :
+Lemma w_subrepo_affected sub (base : label -> Prop) :
   base 2%N -> affected w_subrepo (depends sub w_subrepo) base 1%N.
 Proof.
   intros Hb. change 1%N with (t_id w_app). apply (aff_step _ _ _ w_app 0%N).
@@ -936,4 +936,32 @@ Proof.
   { apply Hcl; [reflexivity | | reflexivity]. apply w_subrepo_affected.
     exists w_sr. split; [exact w_subrepo_direct | reflexivity]. }
   destruct Hin as [Hin | []]. discriminate.
+Qed.
+
+(* ---- a graph for the non-vacuity examples ---- *)
+Definition e_lib : target := mkT 0%N (s "a") false None [s "lib.go"; s "res"] [] [] [] [] [] true 1%N 1%N.
+Definition e_bin : target := mkT 1%N (s "a/b") false None [s "main.go"] [0%N] [] [] [] [] true 2%N 1%N.
+Definition e_tst : target := mkT 2%N (s "a/b") false None [s "t.go"; s "testdata"] [1%N] [] [] [] [] true 3%N 1%N.
+Definition e_g : graph := mkG [e_lib; e_bin; e_tst] [s "a"; s "a/b"] [].
+(* the same graph before //a/b:bin was edited and //a/b:test was added *)
+Definition e_g0 : graph :=
+  mkG [e_lib; mkT 1%N (s "a/b") false None [s "main.go"] [0%N] [] [] [] [] true 9%N 1%N] [s "a"; s "a/b"] [].
+
+Lemma e_direct : direct e_g [s "a/res/img/x.png"] e_lib.
+Proof.
+  split; [left; reflexivity|]. exists (s "a/res/img/x.png"). split; [left; reflexivity|]. split.
+  - exists (s "res"). split; [right; left; reflexivity|]. right. exists (s "img/x.png"). reflexivity.
+  - split; [reflexivity|]. exists [s "a"; s "res"; s "img"; s "x.png"].
+    split; [discriminate|]. split; [apply Forall_wf_segb; reflexivity|]. split; reflexivity.
+Qed.
+
+Lemma e_affected : affected e_g (depends true e_g) (base_files e_g [s "a/res/img/x.png"]) 2%N.
+Proof.
+  change 2%N with (t_id e_tst). apply (aff_step _ _ _ e_tst 1%N).
+  - change 1%N with (t_id e_bin). apply (aff_step _ _ _ e_bin 0%N).
+    + apply aff_base. exists e_lib. split; [exact e_direct | reflexivity].
+    + right. left. reflexivity.
+    + left. exists 0%N, e_lib. split; [left; reflexivity|]. split; [reflexivity | left; reflexivity].
+  - right. right. left. reflexivity.
+  - left. exists 1%N, e_bin. split; [left; reflexivity|]. split; [reflexivity | left; reflexivity].
 Qed.
